@@ -309,6 +309,10 @@ def run(rep: vk.Report):
     kinds_checked, kinds_bad = value_kinds(rep)
     nfails, nund = common.run_classify(IMPORTS, "", NUM_TYPE, nums, NUM_CHECKER) if nums else ([], [])
     for i in nfails:
+        if common.sanitised_overflow(IMPORTS, "", nums[i], "match c with (e, which, pts, ppts, _) => enclosure (match which with "
+                                     "| (Some v, None) => grad ln2c ln10c v e | (Some v, Some w) => grad ln2c ln10c w (grad ln2c ln10c v e) | _ => e end) pts ppts end",
+                                     nmeta[i].get("values", [])):
+            continue              # the true derivative exceeds binary64: the sanitised +-1e16 is the documented answer there
         rep.violation({"kind": "numeric", "obligation": "observation after updates within the enclosure of the model under the current valuation",
                        "case": nums[i][:3000], "witness": nmeta[i]}, concrete=True)
     cov = rep.coverage
